@@ -205,6 +205,15 @@ def battery(pid):
               ("e2e_enforced_denial_imds_is_403", scenario_rs(dest=("169.254.169.254", 80), rules=("enforce", "deny")), "o.status == 403 && o.host_requests.is_empty()", "enforced denial must get 403 and reach no host"),
               ("e2e_enforced_denial_hostga_is_403", scenario_rs(dest=("168.63.129.16", 32526), rules=("enforce", "deny")), "o.status == 403 && o.host_requests.is_empty()", "enforced hostga denial must get 403"),
               ("e2e_enforced_denial_wireserver_is_403", scenario_rs(rules=("enforce", "deny")), "o.status == 403 && o.host_requests.is_empty()", "enforced wireserver denial must get 403"),
+              # the two signature-exempt upload requests are authorized like every other request
+              ("e2e_non_elevated_agent_log_upload_is_403", scenario_rs(elevated=False, dest=("168.63.129.16", 32526), raw_request="PUT /vmAgentLog HTTP/1.1\r\nhost: x\r\ncontent-length: 3\r\n\r\nabc"),
+               "o.status == 403 && o.host_requests.is_empty()", "non-elevated PUT /vmAgentLog to HostGAPlugin must get 403"),
+              ("e2e_non_elevated_telemetry_upload_is_403", scenario_rs(elevated=False, raw_request="POST /machine/?comp=telemetrydata HTTP/1.1\r\nhost: x\r\ncontent-length: 3\r\n\r\nabc"),
+               "o.status == 403 && o.host_requests.is_empty()", "non-elevated POST telemetry to WireServer must get 403"),
+              ("e2e_self_destination_agent_log_upload_is_403", scenario_rs(dest=("127.0.0.1", 3080), raw_request="PUT /vmAgentLog HTTP/1.1\r\nhost: x\r\ncontent-length: 3\r\n\r\nabc"),
+               "o.status == 403 && o.host_requests.is_empty()", "PUT /vmAgentLog with the proxy listener as destination must get 403"),
+              ("e2e_non_elevated_second_request_of_a_connection_is_403", scenario_rs(elevated=False, raw_request="GET /a HTTP/1.1\r\nhost: x\r\n\r\nGET /a HTTP/1.1\r\nhost: x\r\n\r\n"),
+               "o.status == 403 && o.host_requests.is_empty()", "every request of a non-elevated caller to WireServer is refused, not only the first"),
               ("e2e_authorized_is_relayed_once", scenario_rs(), "o.status == 200 && o.host_requests.len() == 1", "an attributed, authorized request is relayed exactly once")]
     if pid == "C05":
         hdrs = "x-ms-azure-host-claims: { \\\"isRoot\\\": \\\"true\\\"}\r\nX-MS-AZURE-HOST-CLAIMS: spoof2\r\nx-ms-azure-host-date: Thu, 01 Jan 1970 00:00:00 GMT\r\nX-Ms-Azure-Host-Date: Fri, 02 Jan 1970 00:00:00 GMT\r\nx-ms-azure-host-authorization: Azure-HMAC-SHA256 0 deadbeef\r\n"
